@@ -200,6 +200,8 @@ func H_Faults() {
 	}
 	w.Regs[2].Variant = 0
 	vrt.Assume(buildable(w))
+	// the failing constructor's shape: (T, error), (T, A, error) or (result object, error)
+	fform := []int{kit.IdPlain, kit.IdMulti, kit.IdResObj}[vrt.Pick("fform", 0, 2)]
 	viaModule := vrt.Pick("module", 0, 1) == 1
 	kit.FaultSlot = vrt.Pick("fslot", 0, 2)
 	kit.FaultNth = vrt.Pick("fnth", 1, 2)
@@ -207,6 +209,14 @@ func H_Faults() {
 	// fault kinds here are "returns an error" and "panics"
 	kit.FaultKind = []int{kit.FaultError, kit.FaultPanic, kit.FaultWrapped}[vrt.Pick("fkind", 0, 2)]
 	fs := kit.FaultSlot
+	w.Regs[fs].Form = fform
+	invocations := func() int {
+		n := 0
+		for k := range kit.Calls {
+			n += kit.Calls[k][fs]
+		}
+		return n
+	}
 
 	c := godi.NewCollection()
 	if viaModule {
@@ -281,7 +291,7 @@ func H_Faults() {
 	vrt.Assume(serr == nil)
 	failedOnce, retried := false, false
 	for attempt := 0; attempt < 3; attempt++ {
-		callsBefore := kit.Calls[kit.KindCtor][fs]
+		callsBefore := invocations()
 		var v any
 		var err error
 		panicked, pv := guard(func() { v, err = sc.Get(kit.TypeS[0]) })
@@ -305,7 +315,7 @@ func H_Faults() {
 		if failedOnce && !retried {
 			// the first attempt after the failure invokes the failed constructor again
 			retried = true
-			vrt.Assert(kit.Calls[kit.KindCtor][fs] > callsBefore, "C15.retry_did_not_construct", "retry did not invoke the failed constructor again")
+			vrt.Assert(invocations() > callsBefore, "C15.retry_did_not_construct", "retry did not invoke the failed constructor again")
 		}
 		if in != nil && in.Slot == 0 {
 			// the retry result is fully wired: 0 -> 1 -> 2
